@@ -1,0 +1,54 @@
+// Copyright (C) 2021-2022 Petter Nilsson. MIT License.
+
+#pragma once
+
+/**
+ * @file
+ * @brief Observation hooks for external runtime monitors. Compiled out unless SMOOTH_VERIF is defined.
+ */
+
+#ifdef SMOOTH_VERIF
+
+#include <typeinfo>
+
+#include "smooth/version.hpp"
+
+SMOOTH_BEGIN_NAMESPACE
+
+namespace verif {
+
+/// @brief Called with every state that the boost::odeint adaptor assigns (type-erased pointer + type).
+/// Thread-local so that a monitor never introduces synchronisation between threads.
+inline thread_local void (*odeint_state_cb)(const void * y, const std::type_info & type) = nullptr;
+
+/// @brief One record per iteration of minimize().
+struct MinimizeIter
+{
+  unsigned iter;
+  double r_n, pred_red, actu_red, rho, delta;
+  bool take_step, stepped, status_set;
+};
+
+/// @brief Called at the end of every iteration of minimize().
+inline thread_local void (*minimize_iter_cb)(const MinimizeIter &) = nullptr;
+
+}  // namespace verif
+
+SMOOTH_END_NAMESPACE
+
+#define SMOOTH_VERIF_ODEINT_STATE(y)                                                                            \
+  do {                                                                                                          \
+    if (::smooth::verif::odeint_state_cb) { ::smooth::verif::odeint_state_cb(static_cast<const void *>(&(y)), typeid(y)); } \
+  } while (0)
+
+#define SMOOTH_VERIF_MINIMIZE_ITER(...)                                                                 \
+  do {                                                                                                  \
+    if (::smooth::verif::minimize_iter_cb) { ::smooth::verif::minimize_iter_cb(::smooth::verif::MinimizeIter{__VA_ARGS__}); } \
+  } while (0)
+
+#else
+
+#define SMOOTH_VERIF_ODEINT_STATE(y) ((void)0)
+#define SMOOTH_VERIF_MINIMIZE_ITER(...) ((void)0)
+
+#endif
